@@ -27,24 +27,37 @@ class Schema:
         nss = ["", "", "aa", "bb"]
         nfiles = r.range(1, 3)
         uni = None
+        used = set()
+
+        def pick(prefix, pool):
+            # short names come from a tiny pool so that the SAME short name in DIFFERENT namespaces (incl. one with and
+            # one without a namespace) is common; the full name stays unique
+            for _ in range(8):
+                ns = r.choice(nss)
+                pre = (ns + ".") if ns else ""
+                short = "%s%d" % (prefix, r.below(pool))
+                if pre + short not in used:
+                    used.add(pre + short)
+                    return pre, short
+            short = "%s%d" % (prefix, 10 + len(used))
+            used.add(short)
+            return "", short
         for i in range(n1):
-            ns = r.choice(nss)
-            pre = (ns + ".") if ns else ""
+            pre, short = pick("t", 3)
             if uni and r.chance(1, 4):
                 tname = uni  # another constructor of a union
             else:
-                tname = pre + "T%d" % i
+                tname = pre + short.capitalize()
                 if r.chance(1, 3):
                     uni = tname
-            self.tl1.append({"name": pre + "t%d" % i, "tname": tname, "fields": self.fields1(), "func": False, "tag": None,
+            self.tl1.append({"name": pre + short, "tname": tname, "fields": self.fields1(), "func": False, "tag": None,
                              "file": r.below(nfiles)})
         if nf and not self.tl1:
             self.tl1.append({"name": "r0", "tname": "R0", "fields": "", "func": False, "tag": None, "file": 0})
         for i in range(nf):
-            ns = r.choice(nss)
-            pre = (ns + ".") if ns else ""
+            pre, short = pick("f", 2)
             # TL1 function results must be boxed: use one of the schema's own types
-            self.tl1.append({"name": pre + "f%d" % i, "tname": r.choice([d["tname"] for d in self.tl1 if not d["func"]]), "fields": self.fields1(),
+            self.tl1.append({"name": pre + short, "tname": r.choice([d["tname"] for d in self.tl1 if not d["func"]]), "fields": self.fields1(),
                              "func": True, "tag": None, "file": r.below(nfiles)})
         self.tl1.sort(key=lambda d: d["file"])
         for i in range(n2):
@@ -92,6 +105,20 @@ class Schema:
         return "".join(parts)
 
 
+def short_of(d):
+    return d["name"].split(".")[-1]
+
+
+def pick_pair(s, rng):
+    """two different TL1 combinators; two thirds of the time a pair with the same short name in different namespaces"""
+    n = len(s.tl1)
+    same = [(a, b) for a in range(n) for b in range(n) if a != b and short_of(s.tl1[a]) == short_of(s.tl1[b])]
+    if same and rng.chance(2, 3):
+        return rng.choice(same) + ("samename",)
+    a, b = rng.below(n), rng.below(n)
+    return a, b, "anyname"
+
+
 def plant(s, crcs, rng):
     """Assign tags: mostly fresh/implicit, then 0..2 planted violations. Returns list of planted kinds."""
     pool = [rng.range(1, 2**32 - 1) for _ in range(2)] + [1, 0xffffffff]
@@ -105,7 +132,8 @@ def plant(s, crcs, rng):
         if not d["func"]:
             d["magic"] = s.fresh() if rng.chance(1, 2) else None
     kinds = []
-    nplant = rng.choice([0, 0, 0, 1, 1, 2])
+    rename = []
+    nplant = rng.choice([0, 0, 1, 1, 1, 2])
     for _ in range(nplant):
         k = rng.below(9)
         if k == 0 and s.tl1:
@@ -118,18 +146,20 @@ def plant(s, crcs, rng):
             rng.choice([d for d in s.tl2 if d["func"]])["magic"] = None
             kinds.append("tl2-func-nomagic")
         elif k == 3 and len(s.tl1) >= 2:
-            a, b = rng.below(len(s.tl1)), rng.below(len(s.tl1))
+            a, b, how = pick_pair(s, rng)
             if a != b:
                 t = rng.choice(pool)
                 s.tl1[a]["tag"] = t
                 s.tl1[b]["tag"] = t
-                kinds.append("tl1-explicit-dup")
+                if how == "anyname" and not s.tl1[a]["func"] and not s.tl1[b]["func"] and rng.chance(1, 4):
+                    rename.append((a, b))   # control: the very same full name twice, applied after all plants
+                kinds.append("tl1-explicit-dup-" + how)
         elif k == 4 and len(s.tl1) >= 2:
-            a, b = rng.below(len(s.tl1)), rng.below(len(s.tl1))
+            a, b, how = pick_pair(s, rng)
             if a != b:
                 s.tl1[a]["tag"] = None
                 s.tl1[b]["tag"] = crcs[a]   # explicit tag equal to another combinator's computed CRC32
-                kinds.append("tl1-implicit-dup")
+                kinds.append("tl1-implicit-dup-" + how)
         elif k == 5 and s.tl1 and s.tl2:
             a = rng.below(len(s.tl1))
             t = s.tl1[a]["tag"] if s.tl1[a]["tag"] else crcs[a]
@@ -152,6 +182,11 @@ def plant(s, crcs, rng):
             d = rng.choice(s.tl1)
             d["tag"] = rng.choice([1, 0xffffffff, 0x80000000, 0x7fffffff])
             kinds.append("boundary")
+    for a, b in rename:
+        # only while both still carry the same explicit tag (the claimed tags of implicit combinators depend on their names)
+        if s.tl1[a]["tag"] is not None and s.tl1[a]["tag"] == s.tl1[b]["tag"]:
+            s.tl1[b]["name"], s.tl1[b]["tname"] = s.tl1[a]["name"], s.tl1[a]["tname"]
+            kinds.append("fullname-control")
     return kinds
 
 
@@ -256,6 +291,9 @@ def run(c):
         ("00000000", "-", "a#00000000 = A;\n", ""),
         ("00000001,00000001", "-", "a#00000001 = A;\nb#00000001 = B;\n", ""),
         ("00000001", "t00000001", "a#00000001 = A;\n", "b#00000001 = x:int32;\n"),
+        ("12345678,12345678", "-", "ns1.foo#12345678 = ns1.Foo;\nns2.foo#12345678 = ns2.Foo;\n", ""),
+        ("12345678,12345678", "-", "foo#12345678 = Foo;\nns2.foo#12345678 = ns2.Foo;\n", ""),
+        ("12345678,12345678", "-", "ns1.foo#12345678 = ns1.Foo;\n@read ns2.foo#12345678 => ns1.Foo;\n", ""),
         ("00000001", "tn,tn", "a#00000001 = A;\n", "b = x:int32;\nc = x:int32;\n"),
         ("-", "t00000000", "", "b#00000000 = x:int32;\n"), ("-", "fn", "", "@read b x:int32 => int32;\n"),
         ("-", "f00000007,t00000007", "", "@read b#00000007 x:int32 => int32;\nc#00000007 = x:int32;\n"),
